@@ -39,6 +39,11 @@ SkOf(cls, tape) ==
       [] cls = "clampmin"   -> KDk(Zero("Nsk"))
       [] cls = "clampmax"   -> KDk(<<"ones", "Nsk">>)
       [] cls = "random"     -> <<"krand", tape>>       \* KeGroup::random_sk(rng)
+      \* a key IMPORTED from foreign bytes (KeyPair::from_private_key_slice / PrivateKey::deserialize): raw
+      \* generator output, or generator output adjusted into the group's range.  Whether the bytes are
+      \* accepted is the decoders' business (Wire.tla); IF they are, the key object obeys every law, its
+      \* encoding is the imported string, and its public key is the group's function of that string.
+      [] cls \in {"import-raw", "import-adj"} -> <<"kimp", tape>>
 
 \* Diffie-Hellman with the equations of 1 and order-1
 GDh(a, b) ==
